@@ -10,6 +10,8 @@ have written a complete file.
 """
 import hashlib
 import os
+
+import numpy as np
 import random
 import subprocess
 import sys
@@ -198,7 +200,9 @@ def judge(res, r, before, sentinel, kind_key, wit, must_fail=False):
             return
         lines = text.splitlines()
         natom = sum(1 for ln in lines if ln.startswith(("ATOM", "HETATM")))
-        written = len(match.written_atoms(r.bio, r.missed)) if r.bio is not None else None
+        # with --ligand the code also lists written ligand atoms as unassigned: no independent count available
+        ligand = any(str(a).startswith("--ligand") for a in (r.argv or []))
+        written = len(match.written_atoms(r.bio, r.missed)) if r.bio is not None and not ligand else None
         ws = "--whitespace" in (r.argv or [])
         if (not ws and (not lines or lines[-1].strip() != "END")) or (written is not None and natom != written):
             res.violate(f"success/incomplete-file/{kind_key}", f"file has {natom} atom lines for {written} matched "
@@ -309,7 +313,8 @@ NATURAL = ["missing_input", "empty_input", "garbage_input", "binary_input", "no_
            "usernames_missing_file", "ph_out_of_range", "neutraln_wrong_ff", "neutralc_wrong_ff", "bad_ff_name",
            "nonintegral_userff", "garbage_userff", "broken_names_xml", "ligand_missing_file", "ligand_garbage",
            "ligand_duplicate_names", "unknown_option", "cif_garbage", "input_is_directory", "his_no_h_assign_only",
-           "conflicting_clean_userff", "only_waters_dropped", "ter_only"]
+           "conflicting_clean_userff", "only_waters_dropped", "ter_only", "ligand_partial_nonintegral",
+           "ligand_partial_nonintegral"]
 
 
 def good_text(rng):
@@ -379,6 +384,23 @@ def natural(spec, rng):
     elif f == "ligand_duplicate_names":
         extra = {"lig.mol2": "@<TRIPOS>MOLECULE\nL\n2 1 1\nSMALL\nUSER_CHARGES\n\n\n@<TRIPOS>ATOM\n"
                  "1 C1 0.0 0.0 0.0 C.3 1 LIG 0.0\n2 C1 1.5 0.0 0.0 C.3 1 LIG 0.0\n@<TRIPOS>BOND\n1 1 2 1\n"}
+        opts = ["--ff=AMBER", "--ligand={dir}/lig.mol2"]
+    elif f == "ligand_partial_nonintegral":
+        # the ligand residue in the structure lacks one atom of the MOL2 ligand: the charges that do get assigned
+        # no longer sum to an integer => the integrality guard must stop the run
+        from ..gen import mol2gen
+        name = rng.choice(["acetate.mol2", "ethanol.mol2", "glycerol.mol2", "pyrrole.mol2", "acetylcholine.mol2"])
+        mol = mol2gen.parse((common.REPO / "tests" / "data" / name).read_text())
+        for a in mol["atoms"]:
+            a["resn"] = "LIG"
+        drop = rng.randrange(len(mol["atoms"]))
+        c0 = S.centroid(S.peptide(["ALA"], rng))
+        het = {"resn": "LIG", "kind": "het", "atoms": [(a["name"], np.array(a["xyz"]) + 30.0) for k, a in
+                                                         enumerate(mol["atoms"]) if k != drop]}
+        pep = S.peptide(["ALA", "SER", "GLY"], rng)
+        it2, _ = S.assemble([{"id": "A", "start": 1, "residues": pep}, {"id": "L", "start": 301, "residues": [het]}])
+        text = pdbfmt.to_text(it2)
+        extra = {"lig.mol2": mol2gen.write(mol)}
         opts = ["--ff=AMBER", "--ligand={dir}/lig.mol2"]
     elif f == "unknown_option":
         opts = ["--ff=AMBER", "--no-such-option"]
